@@ -94,6 +94,13 @@ with SqliteImpl.impl_store.impl_manager as impl:
 
     @impl(ops.round)
     def _round(x, decimals):
+        if not isinstance(decimals, int):
+            # a constant expression that is not a literal (e.g. `pdt.lit(1) + 1`): decide in SQL
+            scale = sqa.func.POW(10, -decimals)
+            return sqa.case(
+                (decimals >= 0, sqa.func.ROUND(x, decimals, type_=x.type)),
+                else_=sqa.func.ROUND(x / scale, type_=x.type) * scale,
+            )
         if decimals >= 0:
             return sqa.func.ROUND(x, decimals, type_=x.type)
         # For some reason SQLite doesn't like negative decimals values
